@@ -57,15 +57,17 @@ class Monitor:
 
 
 class Setup:
-    def __init__(self, mon, rng, idx):
+    def __init__(self, mon, rng, idx, world=None):
         from skepticoin.networking.disk_interface import DiskInterface
         from skepticoin.blockstore import BlockStore
         import skepticoin.blockstore as bs
         import skepticoin.mining as mining
         import skepticoin.wallet as wm
         self.mon, self.rng, self.mining = mon, rng, mining
-        self.world = world = gen.World(rng, nkeys=8)
-        world.grow(rng.choice([4, 8, 14]), rng, tx_prob=0.6)
+        if world is None:
+            world = gen.World(rng, nkeys=8)
+            world.grow(rng.choice([4, 8, 14]), rng, tx_prob=0.6)
+        self.world = world
         self.path = os.path.join(os.getcwd(), "miner-%d.db" % idx)
         if os.path.exists(self.path):
             os.remove(self.path)
@@ -294,18 +296,22 @@ def run_setup(mon, rng, idx, nfound):
 
 
 def replay(mon, w):
-    """re-validate the recorded candidate against the recorded chain and clock"""
+    """the recorded situation (chain, pool = the recorded candidate's transactions, clock) is rebuilt and the miner of
+    the CURRENT tree is driven in it; the candidate it finds now is judged"""
     rng = random.Random(0)
     world = gen.World(rng, nkeys=8)
     for hx in w["chain"]:
         rb = ref.parse_block(bytes.fromhex(hx))
         world.accept(rb, bridge.rblock_to_real(rb), validate=False)
     rb = ref.dec_block(bytes.fromhex(w["candidate"]), strict=False)[0]
-    codes = ref.block_codes(world.chain, rb, w["now"])
-    if codes:
-        mon.v("found-candidate-invalid:" + "+".join(sorted(codes)), "replayed candidate breaks %s" % sorted(codes), w)
-    # adoption is re-checked by a fresh run of the workload
-    run_setup(mon, rng, 0, 2)
+    if rb.prev in world.chain.blocks:
+        world.cs = world.state_at(rb.prev)
+    st = Setup(mon, rng, 0, world=world)
+    for t in rb.txs[1:]:
+        st.node.lp.chain_manager.add_transaction_to_pool(bridge.rtx_to_real(t))
+    st.net.clock.t = w["now"]
+    st.mine_one({"setup": "replay", "round": 0})
+    st.close()
 
 
 def run_shard(spec):
